@@ -36,7 +36,8 @@ RegionHi == EnvInt("V_REGION_HI", MC_T.n - 1)
 MC_Region == {p \in Pts(MC_T) : p <= RegionHi}
 
 Interval(a, b) == {p \in Pts(MC_T) : a <= p /\ p <= b}
-\* P1: start at the low end, goal at the high end (point / interval / middle);
+\* P1: start at the low end, goal at the high end (point / interval / middle) or a region that
+\* already contains the start;
 \* P2: the mirror image, so that answering a stale problem is visible
 MC_Problems ==
   LET n == MC_T.n IN
@@ -45,5 +46,5 @@ MC_Problems ==
   ELSE IF EnvOr("V_PROBLEMS", "many") = "one"
     THEN { << [start |-> 0, goal |-> {n - 1}], [start |-> n - 1, goal |-> {0}] >> }
     ELSE { << [start |-> s, goal |-> g], [start |-> n - 1, goal |-> {0}] >> :
-             s \in {0, 1}, g \in {{n - 1}, Interval(n - 2, n - 1), {n \div 2}} }
+             s \in {0, 1}, g \in {{n - 1}, Interval(n - 2, n - 1), {n \div 2}, Interval(0, 1)} }
 =============================================================================
